@@ -27,9 +27,9 @@ Inductive killpoint :=
 | KInCallee         (* the child is about to run / is running the callee *)
 | KMidSend.         (* the child has written only a part of a large message *)
 
-Definition mk_beh (out : cout) (raised : exn) (big pick asy reterr : bool) : beh :=
+Definition mk_beh (out : cout) (raised : exn) (big pick asy reterr unp : bool) : beh :=
   {| b_out := out; b_isa := fun c => derives raised c; b_big := big; b_pick := pick; b_async := asy;
-     b_ret_err := reterr |}.
+     b_ret_err := reterr; b_unp := unp |}.
 
 Section Run.
   Variable b : beh.
@@ -93,10 +93,15 @@ Definition final_code (f : pfinal) : Z * list Z :=
 Definition demand_code (d : demand) : Z :=
   match d with DReturn => 1%Z | DRaiseCallee => 2%Z | DRaisePEP479 => 3%Z | DRaiseOther => 4%Z end.
 
-Definition eval_case (out : cout) (raised : exn) (big pick asy reterr : bool) (k : killpoint)
+Definition eval_case (out : cout) (raised : exn) (big pick asy reterr unp : bool) (kw : kwcoll) (k : killpoint)
                      (obs_killed : bool) (obs : pfinal) : list Z :=
-  let b := mk_beh out raised big pick asy reterr in
-  let s := run_case b k in
+  let b := mk_beh out raised big pick asy reterr unp in
+  (* keyword names that collide with the implementation's own parameters (Model/Subproc.v, lrun_kw) *)
+  let s := match kw with
+           | KWParent => if kw_parent_safe Gen.Subproc.kw_flags then run_case b k
+                         else p_finish linit (FRaise (XCls TypeErrorC))
+           | _ => run_case (beh_kw Gen.Subproc.kw_flags kw b) k
+           end in
   let spec_obs := zb (outcome_ok b obs_killed obs) in
   match p_stat (ps s) with
   | PSDone f =>
